@@ -469,6 +469,26 @@ _fam("do/v2", "do", _DO_PRE, "  do vprobe", [
     ("cum", "cum na 5 nb 6"),
     ("qua", "qua .src.init"),
 ])
+# collision family: clauses that set the SAME key - `via` vs an explicit `inode` field in `per`, `as` vs an explicit
+# `name` field in `cum` / `qua`, `with` vs `from`, `per` vs `for`, `cum` vs `qua`.  The documented precedences (via over
+# per/for, as over cum/qua, with over from, per over for, cum over qua) are by clause kind, never by position.
+_DO_COLLIDE_PRE = """house h
+init .src.c with pa 9
+init .src.cio with color ".dst.other"
+init .src.cinit with name "third" nz 7
+framer f be active first a
+frame a
+"""
+_fam("do/collide", "do", _DO_COLLIDE_PRE, "  do vprobe", [
+    ("as", "as first mate"),
+    ("via", "via .zone"),
+    ("with", "with pa 1"),
+    ("from", "from pa in .src.c"),
+    ("per", "per inode .other color .dst.red"),
+    ("for", "for color in .src.cio"),
+    ("cum", "cum name second nz 5"),
+    ("qua", "qua name nz in .src.cinit"),
+])
 _fam("framer", "framer", "house h\n", "framer f", [
     ("be", "be active"),
     ("at", "at 0.5"),
